@@ -40,7 +40,16 @@ pub fn run_real(md: &ModelData, text: &str, predict_tags: bool, roundtrip: bool)
 /// one case = (seed, with_tags, roundtrip); returns a description of the first disagreement
 pub fn case(seed: u64, with_tags: bool, roundtrip: bool, check_tags: bool) -> Option<String> {
     let mut r = Rng(seed);
-    let md = gen_model(&mut r, with_tags);
+    let mut md = gen_model(&mut r, with_tags);
+    // degenerate shapes (every 5th seed): a model without character n-grams (dictionary only), without type n-grams,
+    // without dictionary, or with neither kind of n-gram -- each list may be empty on its own
+    match seed % 20 {
+        3 => md.char_ngram_model.0.clear(),
+        8 => md.type_ngram_model.0.clear(),
+        13 => md.dict_model.0.clear(),
+        18 => { md.char_ngram_model.0.clear(); md.type_ngram_model.0.clear(); }
+        _ => {}
+    }
     for t in 0..6 {
         let text = gen_text(&mut r, 12);
         let got = catch_unwind(AssertUnwindSafe(|| run_real(&md, &text, with_tags, roundtrip)));
